@@ -267,3 +267,9 @@ def rules(ctx: Ctx) -> None:
     from .c16 import reference_parts_rule
 
     reference_parts_rule(ctx, "R02.6")
+
+    # ---- R02.8 (= R06.4): two columns are the same node only if their owners are the same object - compared by printed name alone, columns of two
+    # derived tables that share an alias collapse and each target picks up the other scope's source
+    from .common import import_rules as _imp02
+
+    _imp02(ctx, "C06", {"R06.4": "R02.8"})
